@@ -69,7 +69,7 @@ func genG08(repo string, w *Out) error {
 		}
 		w.DefStr(id.coqName, s)
 	}
-	rh, err := pf.Func("ReadHeader")
+	rh, err := pf.NormFunc("ReadHeader", g08Ref["ReadHeader"])
 	if err != nil {
 		return err
 	}
@@ -105,7 +105,7 @@ func genG08(repo string, w *Out) error {
 	if err != nil {
 		return err
 	}
-	r1, err := f1.Func("readV1Header")
+	r1, err := f1.NormFunc("readV1Header", g08Ref["readV1Header"])
 	if err != nil {
 		return err
 	}
@@ -169,7 +169,7 @@ func genG08(repo string, w *Out) error {
 		!strings.Contains(r1s, "b, err := readUntilCRLF(buf, r, idx)") || !strings.HasSuffix(r1s, "return parseV1Header(b) }") {
 		return fmt.Errorf("readV1Header: tail (idx == 0 test, readUntilCRLF(buf, r, idx), parseV1Header(b)) not in the known shape")
 	}
-	ru, err := f1.Func("readUntilCRLF")
+	ru, err := f1.NormFunc("readUntilCRLF", g08Ref["readUntilCRLF"])
 	if err != nil {
 		return err
 	}
@@ -182,7 +182,7 @@ func genG08(repo string, w *Out) error {
 	if !strings.Contains(rus, "if bytes.Equal(buf[idx-1:idx+1], []byte(cRLF)) { return buf[0 : idx-1], nil } idx++ }") {
 		return fmt.Errorf("readUntilCRLF: CRLF test / result slice not in the known shape")
 	}
-	pv, err := f1.Func("parseV1Header")
+	pv, err := f1.NormFunc("parseV1Header", g08Ref["parseV1Header"])
 	if err != nil {
 		return err
 	}
@@ -202,7 +202,7 @@ func genG08(repo string, w *Out) error {
 	case nAtoi == 0 && nUint == 2 && nStrict == 0:
 		w.DefN("t_port_parser", 1)
 	case nAtoi == 0 && nUint == 0 && nStrict == 2:
-		pp, err := f1.Func("parsePort")
+		pp, err := f1.NormFunc("parsePort", g08Ref["parsePort"])
 		if err != nil {
 			return err
 		}
@@ -256,7 +256,7 @@ func genG08(repo string, w *Out) error {
 		}
 		w.DefN(id.coqName, uint64(n))
 	}
-	r2, err := f2.Func("readV2Header")
+	r2, err := f2.NormFunc("readV2Header", g08Ref["readV2Header"])
 	if err != nil {
 		return err
 	}
@@ -404,7 +404,7 @@ func genG08(repo string, w *Out) error {
 	}
 	fallback := [2]bool{}
 	for i, a := range []struct{ fn, sock, field string }{{"Conn.RemoteAddr", "RemoteAddr", "Source"}, {"Conn.LocalAddr", "LocalAddr", "Destination"}} {
-		fd, err := fn.Func(a.fn)
+		fd, err := fn.NormFunc(a.fn, g08Ref[a.fn])
 		if err != nil {
 			return err
 		}
@@ -424,7 +424,7 @@ func genG08(repo string, w *Out) error {
 	}
 	w.DefBool("t_addr_nil_fallback", fallback[0])
 	// readHeaderContext: double-checked locking around the single ReadHeader call (Once.v)
-	rc, err := fn.Func("Conn.readHeaderContext")
+	rc, err := fn.NormFunc("Conn.readHeaderContext", g08Ref["Conn.readHeaderContext"])
 	if err != nil {
 		return err
 	}
@@ -458,7 +458,7 @@ func genG08(repo string, w *Out) error {
 	}
 	w.DefBool("t_timeout_bounds_header_read", true)
 	for _, name := range []string{"Conn.ReadFrom", "Conn.WriteTo"} {
-		fd, err := fn.Func(name)
+		fd, err := fn.NormFunc(name, g08Ref[name])
 		if err != nil {
 			return err
 		}
@@ -472,7 +472,7 @@ func genG08(repo string, w *Out) error {
 	if err != nil {
 		return err
 	}
-	ll, err := ff.Func("Listener.Listen")
+	ll, err := ff.NormFunc("Listener.Listen", g08Ref["Listener.Listen"])
 	if err != nil {
 		return err
 	}
@@ -486,7 +486,7 @@ func genG08(repo string, w *Out) error {
 	if iRaw < 0 || iPP < iRaw || (iRate >= 0 && iRate < iPP) || strings.Contains(lls, "tls.") {
 		return fmt.Errorf("net.go: Listener.Listen does not wrap the raw listener in proxyproto.Listener (timeout from the configuration) before anything else")
 	}
-	la, err := ff.Func("Listener.Accept")
+	la, err := ff.NormFunc("Listener.Accept", g08Ref["Listener.Accept"])
 	if err != nil {
 		return err
 	}
@@ -526,7 +526,7 @@ func genG08(repo string, w *Out) error {
 	w.DefStrList("t_pkg_vars", pkgVars)
 	// Read/Write must go through readHeader first
 	for _, name := range []string{"Conn.Read", "Conn.Write"} {
-		fd, err := fn.Func(name)
+		fd, err := fn.NormFunc(name, g08Ref[name])
 		if err != nil {
 			return err
 		}
